@@ -873,3 +873,18 @@ for _cs in REG.contracts.values():
     for _c in _cs:
         if _c.prop == P and _c.verify and isinstance(_c.replay, dict) and _c.replay.get("count") is None:
             _c.replay["count"] = _SC["literals"] + 600
+
+# the scope stated in levels.d/C17.json must be the scope this module enumerates (a stale claim is a checker error)
+import json as _json
+import os as _os
+_lv = _os.path.join(_os.path.dirname(_os.path.dirname(_os.path.abspath(__file__))), "levels.d", "C17.json")
+if _os.path.exists(_lv):
+    with open(_lv) as _fh:
+        _st = _json.load(_fh).get("scope")
+    if _st is not None:
+        _rtc = sum(1 for _x in ORDER for _t, _f, _rt in _literals() if _rt and _rt[0] in ORDER[_x])
+        _now = {"literals": _SC["literals"], "round_trip_literals": _SC["round_trip_literals"], "functions": len(ORDER),
+                "reference_conversions": _SC["literals"] * len(ORDER), "round_trip_checks": _rtc,
+                "crosscheck_evaluations": (_SC["literals"] + 600) * len(ORDER) + 10}
+        if _now != _st:
+            raise AssertionError("levels.d/C17.json states scope %r but contracts/c17_convert.py enumerates %r" % (_st, _now))
